@@ -59,7 +59,10 @@ class ConstantFoldInterpPattern(RewritePattern):
                 for operand in op.operands
             )
             results = self.interpreter.run_op(op, args)
-        except InterpretationError:
+        except (InterpretationError, AssertionError):
+            # The implementations reject inputs they cannot handle (division by zero,
+            # negative shift amounts, ...) with interpreter_assert or a plain assert:
+            # leave the operation in place.
             return
 
         new_ops: list[Operation] = []
